@@ -148,6 +148,13 @@ def h_advertised(cx, kind, nlevels):
     net.register_evse(evse, 208, 30)
     sim = A.Simulator(net, _Alg(), A.EventQueue(), START, period=5, verbose=False)
     iface = A.Interface(sim)
+    # history: an earlier consumer obtained the infrastructure description and rescaled "its own copy" in place (A -> kW);
+    # what is advertised afterwards must be unaffected
+    scratch = iface.infrastructure_info()
+    for arr in (scratch.max_pilot, scratch.min_pilot, scratch.voltages):
+        arr[...] = arr * 0.208
+    for arr in scratch.allowable_pilots:
+        arr[...] = arr * 0.208
     cont_i, allow_i = iface.allowable_pilot_signals("S")
     info = iface.infrastructure_info()
     k = info.get_station_index("S")
